@@ -74,6 +74,17 @@ def poly_corner_cases(rng, n):
         assert refs.poly1305_acc(r, msg) == T % refs.P1305
         cases.append(Case("poly1305 %s %s" % (hx(bytes(key)), hx(msg)), cls="poly1305/corner-acc=%s" % (
             "p-%d" % (refs.P1305 - T) if T > (1 << 129) + 5 else ("2^%d%s" % (T.bit_length() - 1, "" if T & (T - 1) == 0 else "-1") if T > 6 else str(T)))))
+    # every block (not only the last) landing on a limb corner: carries inside the per-block reduction
+    for i in range(n):
+        key = bytearray(rbytes(rng, 32))
+        if i % 5 == 0:
+            key[:16] = b"\xff" * 16
+        r = int.from_bytes(key[:16], "little") & refs.CLAMP
+        if r == 0:
+            continue
+        msg = refs.poly_corner_stream(rng, r, rng.randrange(1, 6), prefix=rbytes(rng, 16 * rng.randrange(0, 2)))
+        msg += rbytes(rng, rng.choice([0, 0, 1, 15, 16]))
+        cases.append(Case("poly1305 %s %s" % (hx(bytes(key)), hx(msg)), cls="poly1305/limb-corner-blocks"))
     return cases
 
 
@@ -103,6 +114,18 @@ def gen(rng, tier):
         if n in (0, 17, 33):
             for f in multi_flips(mac, rng):
                 cs.append(Case("poly1305_verify %s %s %s" % (hx(key), hx(msg), hx(f)), cls="poly1305_verify/multi-flip", expect="err"))
+    # ---------------- the streaming forms of the MACs are API forms too: every 2-way split of lengths 0..=48, block-aligned 3-way splits
+    for op in ("poly1305_inc", "poly1305_obj", "auth_inc", "auth_obj"):
+        for n in range(0, 49 if tier == "quick" else 130):
+            key, msg = rbytes(rng, 32), rbytes(rng, n)
+            for i in range(0, n + 1):
+                cs.append(Case("%s %s %s %s" % (op, hx(key), hx(msg[:i]), hx(msg[i:])), cls=op + "/2-way"))
+        for n in (32, 48, 64, 127, 128, 129):
+            key, msg = rbytes(rng, 32), rbytes(rng, n)
+            for _ in range(12):
+                i = rng.randrange(0, n + 1); j = rng.randrange(i, n + 1)
+                j = min(n, ((j + 15) // 16) * 16) if rng.random() < 0.5 else j
+                cs.append(Case("%s %s %s %s %s" % (op, hx(key), hx(msg[:i]), hx(msg[i:j]), hx(msg[j:])), cls=op + "/3-way"))
     # ---------------- increment
     for n in range(0, 13):
         for v in ([b"\x00" * n, b"\xff" * n, rbytes(rng, n)] + [b"\xff" * k + rbytes(rng, n - k) for k in range(1, n)]):
